@@ -8,6 +8,7 @@ import Oracle.Amf0
 import Oracle.Aac
 import Oracle.Kxps
 import Oracle.Json
+import Oracle.Errors
 
 namespace Oracle
 
@@ -18,7 +19,8 @@ def handlers : List (String × (String → List String → Option String)) := [
   ("amf0.", Oracle.Amf0.handle),
   ("adts.", Oracle.Aac.handle), ("asc.", Oracle.Aac.handle), ("aac.", Oracle.Aac.handle),
   ("kxps.", Oracle.Kxps.handle),
-  ("json.", Oracle.Json.handle)
+  ("json.", Oracle.Json.handle),
+  ("err.", Oracle.Errors.handle), ("c08.", Oracle.Errors.handle)
 ]
 
 def dispatch (op : String) (args : List String) : Option String :=
